@@ -265,6 +265,8 @@ class Run:
                     self.cmds.append("CSET " + hexs(e["specification"]))
                     self.out.append("CS " + " ".join(f"{a}>{b}={val(t)}" for (a, b), t in
                                                      sorted(m.setup_times.items(), key=lambda kv: kv[0][0] + ">" + kv[0][1])))
+            self._placement_lines(doc, inst)
+            self._outage_lines(ic, inst)
             rnd = random.Random(self.scen.get("seed", 0) * 31 + len(text))
             for _ in range(3):
                 n = rnd.randrange(0, 9)
@@ -273,6 +275,87 @@ class Run:
                 self.out.append("CI " + ID_Counter()._get_new_id(tuple(f"b-{k}" for k in ids), "b-").split("-")[1])
         except Exception as e:  # noqa  (documents outside the generator's shape: nothing to compare)
             self.compile_lines_error = repr(e)
+
+    def _placement_lines(self, doc, inst):
+        """initial placement: what the document says (read here) goes to the model, what the compiled
+        initial state holds is the implementation's answer"""
+        import re
+        num = lambda s, pre: int(s[len(pre):]) if isinstance(s, str) and re.fullmatch(pre + r"\d+", s) else None
+        st0 = self.compiler.last[1]
+        init = doc.get("init_state") or {}
+        if not isinstance(init, dict) or st0 is None:
+            return
+        jobs = []
+        for j in inst.instance.specification:
+            e = init.get(j.id) if isinstance(init.get(j.id), dict) else {}
+            if set(e) - {"location"}:
+                return
+            jn = num(j.id, "j-")
+            ln = num(e["location"], "b-") if "location" in e else "_"
+            if jn is None or ln is None:
+                return
+            jobs.append(f"{jn}:{ln}")
+        inp = num(inst.buffers[0].id, "b-") if inst.buffers else None
+        if inp is None:
+            return
+        for b in inst.buffers:
+            bn = num(b.id, "b-")
+            e = init.get(b.id) if isinstance(init.get(b.id), dict) else {}
+            if bn is None or set(e) - {"store"}:
+                continue
+            if "store" in e:
+                ls = [num(x, "j-") for x in e["store"]] if isinstance(e["store"], list) else [None]
+                if any(x is None for x in ls):
+                    continue
+                listed = "L" + ",".join(map(str, ls))
+            else:
+                listed = "-"
+            bs = next((x for x in st0.buffers if x.id == b.id), None)
+            if bs is None:
+                continue
+            self.cmds.append(f"CSTORE {bn} {inp} {listed} " + ",".join(jobs))
+            self.out.append(("CB " + " ".join(str(num(x, "j-")) for x in bs.store)).rstrip())
+
+    def _outage_lines(self, ic, inst):
+        """which entries of the `outages:` section each component carries: every entry goes to the model
+        as (component name, canonical payload), the compiled outages come back as canonical payloads"""
+        from monitors.compmon import DIST
+        from jobshoplab.types.instance_config_types import OutageTypeConfig, DeterministicTimeConfig
+        es = ic.get("outages")
+        if not isinstance(es, list) or not all(isinstance(e, dict) and isinstance(e.get("component"), str) and e["component"].isascii() for e in es):
+            return
+        kinds = {"maintenance": "M", "repair": "M", "breakdown": "F", "fail": "F", "recharge": "R", "recharging": "R"}
+        kind_of = {OutageTypeConfig.MAINTENANCE: "M", OutageTypeConfig.FAIL: "F", OutageTypeConfig.RECHARGE: "R"}
+        cls_name = {}
+        for k, c in DIST.items():
+            cls_name.setdefault(c, k[:3])
+
+        def spec_tok(sp):
+            if isinstance(sp, int) and not isinstance(sp, bool):
+                return f"d{sp}"
+            if isinstance(sp, dict) and str(sp.get("type")) in DIST:
+                return f"{cls_name[DIST[str(sp['type'])]]}{int(sp['base'])}"
+            return None
+
+        def cfg_tok(t):
+            if isinstance(t, DeterministicTimeConfig):
+                return f"d{t.time}"
+            return f"{cls_name.get(type(t), 'x')}{t.base_time}"
+        toks = []
+        for e in es:
+            k, d, f = kinds.get(e.get("type")), spec_tok(e.get("duration")), spec_tok(e.get("frequency"))
+            if k is None or d is None or f is None:
+                return
+            toks.append(f"{k}/{d}/{f}")
+        hx = lambda t: t.encode("utf-8").hex()
+        args = " ".join(f"{hx(e['component'])}={t}" for e, t in zip(es, toks))
+        lg = ic.get("logistics")
+        # (transports only get outages from the logistics mapper: without that section there are
+        # only the default teleporters, which the `outages:` section does not address)
+        for kind, comps in (("m", inst.machines), ("t", inst.transports if isinstance(lg, dict) and "type" in lg else ())):
+            for c in comps:
+                self.cmds.append(f"COUT {kind} {hx(c.id)} {args}".rstrip())
+                self.out.append(("CO " + " ".join(f"{kind_of.get(o.type, '?')}/{cfg_tok(o.duration)}/{cfg_tok(o.frequency)}" for o in c.outages)).rstrip())
 
     # -- helpers
     def _guard(self, f):
